@@ -229,12 +229,35 @@ class PyModule(object):
                     found = nested[0]
                 else:
                     found = self._helper_by_role(node, nested)
+            if found is None and i_part == 0:
+                # a definition that was moved to another module of the package and is imported here under its name
+                found = self._imported_def(part)
             if found is None:
                 if required:
                     raise AnalysisError('%s: definition %r not found' % (self.rel, qualname))
                 return None
             node = found
         return node
+
+    def _imported_def(self, name):
+        repo = getattr(self, 'repo', None)
+        if repo is None:
+            return None
+        for s_ in self.tree.body:
+            if isinstance(s_, ast.ImportFrom) and s_.module and s_.level == 0:
+                for al in s_.names:
+                    if (al.asname or al.name) == name:
+                        for rel in (s_.module.replace('.', '/') + '.py', s_.module.replace('.', '/') + '/__init__.py'):
+                            if repo.exists(rel) and rel != self.rel:
+                                other = repo.module(rel)
+                                for d in other.tree.body:
+                                    if isinstance(d, (ast.FunctionDef, ast.ClassDef)) and d.name == al.name:
+                                        return d
+            # a module-level alias  _name = imported_name
+            if isinstance(s_, ast.Assign) and len(s_.targets) == 1 and isinstance(s_.targets[0], ast.Name) and s_.targets[0].id == name \
+                    and isinstance(s_.value, ast.Name) and s_.value.id != name:
+                return self._imported_def(s_.value.id) or self._find(self.tree.body, s_.value.id, (ast.FunctionDef, ast.ClassDef))
+        return None
 
     def _helper_by_role(self, entry, nested):
         """the recursive helper of `entry` when it is not found by name: the one self-recursive closure of entry, or
